@@ -467,7 +467,11 @@ func cmdVerify(args []string) int {
 			fmt.Printf("VIOLATION property=%s replay=%s no-failing-input-found\n", pid, path)
 		}
 		for _, r := range rs {
-			bounded = append(bounded, map[string]interface{}{"label": "bounded", "what": "helper.Bst[" + r.Type + "] Insert/Remove/Min/Max histories of every length up to the bound vs multiset (each operation result; Contains of every value, Min and Max at the end of every history)", "max_history_length": map[bool]int{true: ml + 2, false: ml}[strings.Contains(r.Type, "3-values")], "domain_size": map[bool]int{true: 3, false: 4}[strings.Contains(r.Type, "3-values")], "histories": r.Histories, "steps_checked": r.Steps, "failure": r.Failure})
+			if strings.Contains(r.Type, "chains-of-") {
+				bounded = append(bounded, map[string]interface{}{"label": "bounded", "what": "helper.Bst[" + r.Type + "] list-shaped trees: ascending / descending / converging zig-zag insert orders x the same three removal orders; after every operation Contains of the value touched, Min and Max vs multiset", "branch_length": 16 * ml, "histories": r.Histories, "steps_checked": r.Steps, "failure": r.Failure})
+			} else {
+				bounded = append(bounded, map[string]interface{}{"label": "bounded", "what": "helper.Bst[" + r.Type + "] Insert/Remove/Min/Max histories of every length up to the bound vs multiset (each operation result; Contains of every value, Min and Max at the end of every history)", "max_history_length": map[bool]int{true: ml + 2, false: ml}[strings.Contains(r.Type, "3-values")], "domain_size": map[bool]int{true: 3, false: 4}[strings.Contains(r.Type, "3-values")], "histories": r.Histories, "steps_checked": r.Steps, "failure": r.Failure})
+			}
 			if r.Failure != "" {
 				violations++
 				path := writeReplay(*replayDir, pid, "helper.Bst_bounded-histories_"+r.Type, map[string]interface{}{"obligation": "helper.Bst/bounded-histories/" + r.Type, "failing_input": map[string]interface{}{"type": r.Type, "history": r.Failure}})
